@@ -27,7 +27,8 @@ TRUSTED = ['binary64 arithmetic of the library is exact on the generated 1/64-un
            'binary64 error stays below the half-microsecond rounding of timedelta; where fracyear is an exact integer and addyears != 0 '
            'the model accepts either neighbour (rounding band)',
            '_parse_ref_date modelled as a finite table of spellings (strptime itself is not re-implemented)',
-           'netCDF4.date2num modelled as exact division; np.interp + round modelled on Z (ascending coordinates only)',
+           'netCDF4.date2num modelled as exact division from the reference instant that _parse_ref_date yields (the repaired date2num '
+           'normalises the units string first); np.interp + round modelled on Z (ascending coordinates only)',
            'cftime.num2date and Python integer datetime arithmetic as independent oracles in py_check']
 ASSUMPTIONS = ['TSTEP < 0 in add_time_variable, descending time coordinates in time2idx, int32 overflow of arange*tmpseconds, '
                'milliseconds/microseconds units, 360_day/julian calendars and datetype != datetime are not modelled',
@@ -98,9 +99,7 @@ def _ref(rng, jan1=False, midnight=False, malformed=0.08):
     if midnight:
         H = M = S = 0
         tz = 0
-    # 'YYYY-MM-DD+hh:mm' (colon zone glued to the date) is read by cftime as a time of day: not generated
-    r = dict(sp=sp, y=y, m=m, d=d, H=H, M=M, S=S, tz=tz, pad=rng.random() < 0.85,
-             tzcolon=(rng.random() < 0.5 and sp != 'SpD_tz'))
+    r = dict(sp=sp, y=y, m=m, d=d, H=H, M=M, S=S, tz=tz, pad=rng.random() < 0.85, tzcolon=rng.random() < 0.5)
     q = rng.random()
     if q < malformed / 2:
         r['sp'] = rng.choice(['SpT', 'SpFrac'])
@@ -740,14 +739,16 @@ def shrink(case):
         yield c
 
 
-LEVEL_TEXT = ('Theorems (Props/C12.v, 20, all closed under the global context) over Model/Times.v on a proved proleptic-Gregorian '
+LEVEL_TEXT = ('Theorems (Props/C12.v, 19, all closed under the global context) over Model/Times.v on a proved proleptic-Gregorian '
               'calendar (Base/Calendar.v: civil date <-> day number and YYYYJJJ/HHMMSS <-> seconds are mutual inverses for all years, '
               'lia + a 146097-day era sweep): full strength for CF standard calendars (every unit, accepted spelling, zone, series length: '
               'C12_cf_standard_correct), TFLAG rows incl. bounds (C12_tflag_correct, C12_tflag_bounds_correct), SDATE/STIME/TSTEP '
-              '(C12_sdate_tstep_correct), updatetflag rows (C12_updatetflag_roundtrip), time variable synthesised from TFLAG '
-              '(C12_synth_matches_flags), time2idx identity on ascending coordinates (C12_time2idx_identity); _partial + _refuted for: '
-              '365/366-day calendars (right only for Jan-1 midnight references and whole-day values; four vm_compute witnesses), '
-              'synthesis from attributes (TSTEP >= 100 h misread), date2num round trip (hour-only reference spellings). '
+              '(C12_sdate_tstep_correct), updatetflag rows (C12_updatetflag_roundtrip), time variable synthesised from TFLAG and from '
+              'the attributes for every step incl. >= 100 h (C12_synth_matches_flags, C12_synth_matches_attrs, C12_synth_bounds_edge), '
+              'date2num round trip for every accepted reference spelling (C12_date2num_roundtrip), time2idx identity on ascending '
+              'coordinates (C12_time2idx_identity); the last three hold for the code repaired by fixes/C12-add-time-variable-tstep.patch '
+              'and fixes/C12-date2num-refdate.patch. _partial + _refuted remain for the 365/366-day calendars (right only for Jan-1 '
+              'midnight references and whole-day values; four vm_compute witnesses = known findings, the branch needs a rewrite). '
               'Tie H: getTimes / date2num / time2idx / add_time_variables / updatetflag of the library vs the model on every generated case, '
               'plus cftime and integer datetime arithmetic as independent oracles.')
 LEVEL_NOTE = ('Trusted: Coq kernel + vm_compute; the harness; binary64 exactness of the library on the 1/64-unit grid and of the TFLAG '
